@@ -9,7 +9,9 @@ def main(tier, seed, replay):
         prop_module="Props.C18",
         driver="c18",
         corr_name="corr:lazymap-forced-schedules (model run vs real LazySyncMap under the same forced schedule: return values, "
-                  "compute counts, final loads, yield-point sequence)",
+                  "compute counts, final loads, yield-point sequence; returned Go values are decoded bit-exactly to the model's "
+                  "value tokens for each of the 12 value kinds; a run whose program, schedule and token-level observations are "
+                  "identical to a case already written shares that case's model evaluation)",
         trusted=[
             "modelled, not verified: sync.Map (each LoadOrStore / Load / Store call is one atomic step on a map from keys to "
             "entries), sync.WaitGroup (Wait returns iff Done has run; the counter is 1 from Add(1) at allocation), the Go "
@@ -26,12 +28,29 @@ def main(tier, seed, replay):
             "check that releasing it earlier really blocks",
             "the linearizability checker of the driver (brute force over <= 6 calls) is an independent oracle on the "
             "implementation's observations; the proof side is Props.C18.linearizable",
+            "values: the model's values are abstract tokens with identity (LazyMap.v val := nat; the model never compares, copies "
+            "partially or inspects a value, and Store always takes effect). The driver (harness/cmd/c18/values.go) represents the "
+            "tokens as Go values of 12 kinds - int (every case, exactly the cases run before value kinds existed), pointer (distinct "
+            "allocations with equal contents), string (incl. \"\"), float64 in two token assignments (+0/-0, two NaN payloads, "
+            "infinities, denormal), complex128 (the four signed zeros, NaNs), slice, map, struct with a slice field (equal contents, "
+            "distinct backing arrays), struct with float fields (the eight sign patterns of three zeros: pairwise Go-== yet "
+            "distinguishable), a mixture of dynamic types incl. typed nil pointer and nil slice, and that mixture inside "
+            "struct{V interface{}} - for a seeded rotation of 3 (thorough: 2; all 11 for exhaustively scheduled programs) further kinds "
+            "per forced schedule and for all kinds on the sequential histories (one goroutine, <= 4 operations, thorough <= 5). "
+            "Returned values are decoded BIT-EXACTLY (math.Float64bits: a NaN must come back as the same NaN, -0 is not +0; pointers, "
+            "slices and maps by the identity of the allocation; structs field by field); a value that is not bit-for-bit one of the "
+            "kind's values is reported like a leaked placeholder. The encoding tables are checked injective at start-up. A panic "
+            "escaping LoadOrStore / Load / Store is recovered and is a failing input (signature panic:<operation>:<value kind>); the "
+            "remaining goroutines of that schedule are then left to run freely under a deadline",
         ],
         assume=[
             "the compute functions passed to LoadOrStore are pure and total: they return a value, do not panic, do not block and "
             "do not call back into the same map (an operation carries the value its function returns)",
             "keys are never deleted (LazySyncMap exposes no Delete/Range; callers do not reach into the underlying sync.Map)",
-            "values are not themselves *inFlightValue pointers",
+            "values are not themselves *inFlightValue pointers, and are not the untyped nil interface (the model's RNil stands for a "
+            "placeholder cell read before its value was written; typed nil pointers and nil slices ARE exercised)",
+            "values are exercised for the 12 kinds above only: func and chan values, arrays, and keys other than the ints 0 and 1 "
+            "(sync.Map requires hashable keys; NaN keys can never be found again) are not exercised",
         ],
         coqchk_modules=["GR.Props.C18"],
     )
